@@ -50,7 +50,8 @@ type HarnessSpec struct {
 	AtomicPkgs []string `json:"atomic_pkgs"`
 	Replay     string   `json:"replay"` // "direct" (default) | "none"
 	Note       string   `json:"note"`
-	ReplayRepeat int    `json:"replay_repeat"` // native stress iterations for schedule-dependent counterexamples
+	ReplayRepeat int    `json:"replay_repeat"`
+	NativeRace bool     `json:"native_race"` // native replays run under go test -race // native stress iterations for schedule-dependent counterexamples
 }
 
 type PropSpec struct {
